@@ -75,6 +75,21 @@ def octets_bytes(octs, n):
     return SBytes(len(os_), at)
 
 
+def sym_digits(it, name, width, lo=None, hi=None):
+    """an unsigned integer of `width` octets given as the sum of its octets (see Addr); optional extra bounds"""
+    octs = []
+    for k in range(width):
+        o = z3.Int('%s_o%d' % (name, k))
+        it.p.assume(z3.And(o >= 0, o <= 255))
+        octs.append(o)
+    a = Addr(octs)
+    if lo is not None:
+        it.p.assume(a.t >= lo)
+    if hi is not None:
+        it.p.assume(a.t <= hi)
+    return a
+
+
 def canonical_prefix(it, tag, width, plens=None, plen=None):
     """(addr, plen): symbolic address whose bits beyond plen are zero; plen forked over plens"""
     bits = 8 * width
@@ -129,8 +144,11 @@ def text4(addr, plen):
 
 
 # ---------------------------------------------------------------- units
-def units(props):
+def units(props, tier='quick'):
     us = []
+    # quick tier: the labeled / VPN IPv6 units use a reduced set of prefix lengths (the full set is exercised by the IPv6 unicast
+    # and construct_prefix_v6 units, which own the prefix-length logic); thorough tier: the full set everywhere
+    plens6_family = PLENS6 if tier == 'thorough' else [0, 1, 7, 8, 9, 63, 64, 65, 127, 128]
 
     def U(name, qual, args, expect, **kw):
         u = CodecUnit(name, qual, args, expect, props=tuple(props), **kw)
@@ -236,7 +254,8 @@ def units(props):
             n = 1 + it.p.choose(2, 'n-routes')
             raw = []
             for i in range(n):
-                addr, plen = canonical_prefix(it, 'r%d' % i, width, plen=None if i == 0 else (24 if fam == 4 else 64))
+                addr, plen = canonical_prefix(it, 'r%d' % i, width, plen=None if i == 0 else (24 if fam == 4 else 64),
+                                              plens=plens6_family if fam == 6 else None)
                 raw.append((addr, plen, labels(it, 'r%d' % i) if i == 0 else one_label(it, 'x%d' % i)))
             close_zero_flag(it)
             return raw
@@ -286,12 +305,12 @@ def units(props):
         """(text, 8 octets) of a route distinguisher; the type is forked unless given"""
         k = it.p.choose(3, 'rd-type-' + tag) if kind is None else kind
         if k == 0:
-            asn, an = sym_int(it, 'rd_asn_' + tag, 0, 65535), sym_int(it, 'rd_an_' + tag, 0, 2 ** 32 - 1)
+            asn, an = sym_digits(it, 'rd_asn_' + tag, 2), sym_digits(it, 'rd_an_' + tag, 4)
             return STR.concat([STR.dec(asn), ':', STR.dec(an)]), SP.cat(SP.be(0, 2), SP.be(asn, 2), SP.be(an, 4))
         if k == 1:
-            ip, an = sym_int(it, 'rd_ip_' + tag, 0, 2 ** 32 - 1), sym_int(it, 'rd_an_' + tag, 0, 65535)
+            ip, an = sym_digits(it, 'rd_ip_' + tag, 4), sym_digits(it, 'rd_an_' + tag, 2)
             return STR.concat([STR.ip4(ip), ':', STR.dec(an)]), SP.cat(SP.be(1, 2), SP.be(ip, 4), SP.be(an, 2))
-        asn, an = sym_int(it, 'rd_asn_' + tag, 65536, 2 ** 32 - 1), sym_int(it, 'rd_an_' + tag, 0, 65535)
+        asn, an = sym_digits(it, 'rd_asn_' + tag, 4, lo=65536), sym_digits(it, 'rd_an_' + tag, 2)
         return STR.concat([STR.dec(asn), ':', STR.dec(an)]), SP.cat(SP.be(2, 2), SP.be(asn, 4), SP.be(an, 2))
 
     def rdc_args(it):
@@ -311,7 +330,8 @@ def units(props):
             n = 1 + it.p.choose(2, 'n-routes')
             raw = []
             for i in range(n):
-                addr, plen = canonical_prefix(it, 'r%d' % i, width, plen=None if i == 0 else (24 if fam == 4 else 64))
+                addr, plen = canonical_prefix(it, 'r%d' % i, width, plen=None if i == 0 else (24 if fam == 4 else 64),
+                                              plens=plens6_family if fam == 6 else None)
                 rd = rd_value(it, 'r%d' % i, kind=None if i == 0 else 0)
                 raw.append((addr, plen, one_label(it, 'r%d' % i), rd))
             close_zero_flag(it)
@@ -481,7 +501,7 @@ def units(props):
     EV = N + 'evpn.'
 
     def mac_value(it, tag):
-        m = sym_int(it, 'mac_' + tag, 0, 2 ** 48 - 1)
+        m = sym_digits(it, 'mac_' + tag, 6)
         return SStr([STR.Atom('mac', m.t)]), SP.be(m, 6)
 
     def esi_value(it, tag, kind=None):
@@ -491,14 +511,14 @@ def units(props):
             return {'type': 0, 'value': v}, SP.cat(b'\x00', SP.be(v, 9))
         if k in (1, 2):
             mt, mb = mac_value(it, 'esi_' + tag)
-            x = sym_int(it, 'esi_x_' + tag, 0, 65535)
+            x = sym_digits(it, 'esi_x_' + tag, 2)
             names = ('ce_mac_addr', 'ce_port_key') if k == 1 else ('rb_mac_addr', 'rb_priority')
             return {'type': k, 'value': {names[0]: mt, names[1]: x}}, SP.cat(SP.be(k, 1), mb, SP.be(x, 2), b'\x00')
         if k == 3:
             mt, mb = mac_value(it, 'esi_' + tag)
-            ld = sym_int(it, 'esi_ld_' + tag, 0, 2 ** 24 - 1)
+            ld = sym_digits(it, 'esi_ld_' + tag, 3)
             return {'type': 3, 'value': {'sys_mac_addr': mt, 'ld_value': ld}}, SP.cat(b'\x03', mb, SP.be(ld, 3))
-        a, ld = sym_int(it, 'esi_a_' + tag, 0, 2 ** 32 - 1), sym_int(it, 'esi_ld_' + tag, 0, 2 ** 32 - 1)
+        a, ld = sym_digits(it, 'esi_a_' + tag, 4), sym_digits(it, 'esi_ld_' + tag, 4)
         name = 'router_id' if k == 4 else 'as_num'
         return {'type': k, 'value': {name: a, 'ld_value': ld}}, SP.cat(SP.be(k, 1), SP.be(a, 4), SP.be(ld, 4), b'\x00')
 
@@ -524,14 +544,14 @@ def units(props):
     def evpn_route(it, rtype, tag, small=False):
         """(value dict, route-type-specific octets)"""
         rd = rd_value(it, tag, kind=0 if small else None)
-        tagid = sym_int(it, 'eth_tag_' + tag, 0, 2 ** 32 - 1)
+        tagid = sym_digits(it, 'eth_tag_' + tag, 4)
         if rtype == 1:
-            esi = esi_value(it, tag, kind=0 if small else None)
+            esi = esi_value(it, tag, kind=4 if small else None)
             lb = one_label(it, tag)
             return ({'rd': rd[0], 'esi': esi[0], 'eth_tag_id': tagid, 'label': list(lb)},
                     SP.cat(rd[1], esi[1], SP.be(tagid, 4), label_stack_enc(lb, evpn=True)))
         if rtype == 2:
-            esi = esi_value(it, tag, kind=0)
+            esi = esi_value(it, tag, kind=4 if small else 0)
             mt, mb = mac_value(it, tag)
             ipt, ipb = ip_value(it, tag)
             two = it.p.branch(z3.Bool('two_labels_' + tag))
@@ -546,7 +566,7 @@ def units(props):
             if ipt is not None:
                 v['ip'] = ipt
             return v, SP.cat(rd[1], SP.be(tagid, 4), ipb)
-        esi = esi_value(it, tag, kind=0 if small else None)
+        esi = esi_value(it, tag, kind=4 if small else None)
         ipt, ipb = ip_value(it, tag)
         v = {'rd': rd[0], 'esi': esi[0]}
         if ipt is not None:
@@ -627,7 +647,7 @@ def units(props):
             op, bits = OPS[it.p.choose(len(OPS), 'op-%s%d' % (tag, i))]
             w = [1, 2, 4][it.p.choose(3, 'width-%s%d' % (tag, i))]
             lo = {1: 0, 2: 256, 4: 2 ** 24}[w]              # 3-octet values (2^16 .. 2^24-1) have no RFC 8955 length code
-            v = sym_int(it, 'val_%s%d' % (tag, i), lo, 2 ** (8 * w) - 1)
+            v = sym_digits(it, 'val_%s%d' % (tag, i), w, lo=lo)
             terms.append((op, bits, v, w))
         return terms
 
